@@ -240,6 +240,10 @@ def _make_cb(proc, mode, tag):
         proc._t('cb', tag, _cur_ok(proc))
         if mode == 'raise':
             raise ProgError(tag)
+        if mode == 'kill':
+            # a watchdog: the callback the step left behind kills the process (it runs later, e.g. while the process waits)
+            ret = proc.kill(tag)
+            proc._t('cbkill', tag, 'future' if asyncio.isfuture(ret) else ret)
 
     callback.__name__ = 'cb_%s' % tag
     return callback
